@@ -46,7 +46,7 @@ def handle(rep, res, fs, sc, prop='C09'):
 
 def run(tier, rep):
     thorough = tier == 'thorough'
-    N = 5 if thorough else 4
+    N = 4  # 5 characters took 2.4 h on this machine; the thorough tier adds the cross-solver runs and longer frames
     with Scratch() as sc:
         FN = 5 if thorough else 4
         fs = files(sc, N, FN)
